@@ -382,7 +382,8 @@ def main():
             except Exception:
                 pass
         try:
-            c = generic_shrink(pid, mod, c, f)
+            if os.environ.get("VERIF_NOSHRINK") != "1":
+                c = generic_shrink(pid, mod, c, f)
         except Exception:
             pass
         path = os.path.join(OUT, "evidence", "replay", f"{pid}-{common.case_hash(c)}.json")
